@@ -199,6 +199,46 @@ fn case<G: CurveTag>(bytes: &[u8], col: &mut Collector, kmax: usize, force: Opti
     // the honest proof: accepted iff no round degenerates
     judge(&inst, &m, Some(!degenerate), if degenerate { "honest(degenerate-round)" } else { "honest" })?;
     let mut n_edits = 1u64;
+    // a second opening made and checked on the transcripts the first one left behind (lengths 1, 2,
+    // 4 after any length): both roles must have moved their transcripts in step
+    if !degenerate && seed % 3 == 0 {
+        let n2 = 1usize << (seed as usize / 3 % 3);
+        let a2: Vec<Fr<G>> = (0..n2).map(|i| ScalarSpec::Rand(seed + 11 + i as u64).to_f()).collect();
+        let b2: Vec<Fr<G>> = (0..n2).map(|i| ScalarSpec::Rand(seed + 31 + i as u64).to_f()).collect();
+        let ones = vec![Fr::<G>::one(); n2];
+        let g2: Vec<G> = (0..n2).map(|i| rand_point::<G>(seed * 7 + i as u64)).collect();
+        let h2: Vec<G> = (0..n2).map(|i| rand_point::<G>(seed * 7 + 100 + i as u64)).collect();
+        let q2 = rand_point::<G>(seed + 5);
+        let mut p2 = <G as AffineRepr>::Group::zero();
+        let mut ip2 = Fr::<G>::zero();
+        for i in 0..n2 {
+            ip2 += a2[i] * b2[i];
+            p2 += g2[i].mul_bigint(a2[i].into_bigint());
+            p2 += h2[i].mul_bigint(b2[i].into_bigint());
+        }
+        p2 += q2.mul_bigint(ip2.into_bigint());
+        let p2 = p2.into_affine();
+        let chained = guarded(|| {
+            let second = InnerProductProof::<G>::create(&mut tp, &q2, &ones, &ones, g2.clone(), h2.clone(), a2.clone(), b2.clone());
+            let mut tv = Transcript::new(b"ipp-test");
+            let first_ok = proof.verify(n, &mut tv, gf.iter(), hf.iter(), &P, &Q, &Gv, &Hv).is_ok();
+            let second_ok = second.verify(n2, &mut tv, ones.iter(), ones.iter(), &p2, &q2, &g2, &h2).is_ok();
+            (first_ok, second_ok, to_mirror(&second).L.iter().chain(to_mirror(&second).R.iter()).any(|p| p.is_zero()))
+        });
+        match chained {
+            Err(pn) => return Err(Failure::new("C10:create-panic", format!("a second create / verify on the same transcripts panicked: {}", pn), what("chained"))),
+            Ok((true, false, false)) => {
+                return Err(Failure::new(
+                    "C10:chained-opening-rejected",
+                    format!("a correct opening of length {} made right after one of length {} on the same transcript is rejected by a verifier that checked the first one on its transcript: the two roles do not move their transcripts in step", n2, n),
+                    what("chained"),
+                ))
+            }
+            _ => {}
+        }
+        n_edits += 1;
+        col.class("chained-second-opening");
+    }
     if !degenerate {
         // negative edits: each must be rejected, and agree with the reference
         let d: Fr<G> = ScalarSpec::gen_nonzero(&mut ch).to_f();
